@@ -303,8 +303,3 @@ MUTANTS["C14"] += [
     ("attach prefers the gap right after the output over a lower... (skips position 1 when two gaps exist)",
      [("rv/project.py", "                module.index = self.module_index(None)\n", "                module.index = self.module_index(None)\n                if module.index == 1 and self.modules.count(None) > 1:\n                    module.index = self.modules.index(None, 2)\n")]),
 ]
-MUTANTS["C17"] += [
-    ("Pattern default icon/colour containers: fg_color default is one shared list that set-in-place writers mutate",
-     [("rv/modules/sampler.py", "            self.data = b\"\"\n            self._length = 0", "            self.data = _EMPTY\n            self._length = 0"),
-      ("rv/modules/sampler.py", "class Sampler(BaseSampler, Module):", "_EMPTY = b\"\"\n\n\nclass Sampler(BaseSampler, Module):")]),
-]
